@@ -209,14 +209,19 @@ func driverCase(c Case, rec *evid.Rec) error {
 	_, soft, hard := limits(c)
 	m := &mock{}
 	ses := eng.NewSession(uci.WithSearch(m))
-	if c.PonderOpt {
+	if c.PonderOpt || strings.Contains(strings.Join(c.Prev, " "), "ponder") {
 		ses.Send("setoption name Ponder value true")
 	}
 	if c.Stm == 1 {
 		ses.Send("position startpos moves e2e4")
 	}
 	for _, prev := range c.Prev {
-		ses.Send("go " + prev)
+		// "ponder ...|stop" / "ponder ...|hit": a ponder search of the earlier game, ended the way a GUI ends it
+		args, end, isPonder := strings.Cut(prev, "|")
+		ses.Send("go " + args)
+		if isPonder {
+			ses.Send(map[string]string{"stop": "stop", "hit": "ponderhit"}[end])
+		}
 		if _, ok := ses.Wait("bestmove", 30*time.Second); !ok {
 			fmt.Println("INFRA-ERROR the non-blocking mock search of an earlier go was not answered")
 			os.Exit(2)
@@ -276,7 +281,9 @@ func driverCase(c Case, rec *evid.Rec) error {
 
 // drawPrev draws the arguments of an earlier, conforming `go` command of the same session.
 func drawPrev(t *rapid.T) string {
-	switch gen.Draw(t, 0, 4, "prevkind") {
+	switch gen.Draw(t, 0, 6, "prevkind") {
+	case 5, 6:
+		return fmt.Sprintf("ponder wtime %d btime %d winc %d binc %d|%s", rapid.Int64Range(1, 10_000_000).Draw(t, "pw"), rapid.Int64Range(1, 10_000_000).Draw(t, "pb"), rapid.Int64Range(0, 100000).Draw(t, "pwi"), rapid.Int64Range(0, 100000).Draw(t, "pbi"), []string{"stop", "hit"}[gen.Draw(t, 0, 1, "pend")])
 	case 0:
 		return fmt.Sprintf("movetime %d", rapid.Int64Range(1, 10_000_000).Draw(t, "pmt"))
 	case 1:
@@ -293,7 +300,7 @@ func drawPrev(t *rapid.T) string {
 func TestC14(t *testing.T) {
 	evid.Main(t, "C14", func(rec *evid.Rec) {
 		margin := int64(uci.TimeSafetyMargin)
-		rec.Rule("exhaustive grid: remaining time 1..400 ms step 1, +-3 around the break points (margin, 2*margin, 4*margin, the points where 4*soft crosses remaining-margin for each increment), decades up to 10^12 (+-1); increments {0..100, decades to 10^9, remaining/8 +-1, remaining/2}; both colours; move time absent / {1, margin-1, margin, margin+1, 1000, 10^7}; opponent clock varied. Random elsewhere (rapid). Oracle = only what the property promises: hard > 0; hard <= remaining; remaining > margin => hard <= remaining - margin (margin read from uci.TimeSafetyMargin); with a move time soft == hard == movetime; changing only the opponent's time/increment does not change the hard deadline (nor the soft target under a move time). Driver leg: with a recording mock search and a fixed move time the SoftTime option passed equals the move time; with a blocking mock and a 40..120 ms clock the stop channel closes within the remaining time + 2 s slack (three attempts); half of the driver sessions (recording and blocking) have answered 1-3 earlier conforming go commands (move time, clocks with increment or movestogo, depth, nodes) on the same driver first, and the judged go must be unaffected by them; `go ponder` + `ponderhit` on a blocking mock that sits 0..2 plies below the root on the driver's board, with an increment far above the remaining time and a much larger opponent clock: the stop channel closes within the remaining time + 1.5 s slack (three attempts). Non-trivial = grid point where a clamp is active or a move time is set; distinct by (remaining, inc, movetime, colour)")
+		rec.Rule("exhaustive grid: remaining time 1..400 ms step 1, +-3 around the break points (margin, 2*margin, 4*margin, the points where 4*soft crosses remaining-margin for each increment), decades up to 10^12 (+-1); increments {0..100, decades to 10^9, remaining/8 +-1, remaining/2}; both colours; move time absent / {1, margin-1, margin, margin+1, 1000, 10^7}; opponent clock varied. Random elsewhere (rapid). Oracle = only what the property promises: hard > 0; hard <= remaining; remaining > margin => hard <= remaining - margin (margin read from uci.TimeSafetyMargin); with a move time soft == hard == movetime; changing only the opponent's time/increment does not change the hard deadline (nor the soft target under a move time). Driver leg: with a recording mock search and a fixed move time the SoftTime option passed equals the move time; with a blocking mock and a 40..120 ms clock the stop channel closes within the remaining time + 2 s slack (three attempts); half of the driver sessions (recording and blocking) have answered 1-3 earlier conforming go commands (move time, clocks with increment or movestogo, depth, nodes, ponder searches ended by stop or ponderhit) on the same driver first, and the judged go must be unaffected by them; `go ponder` + `ponderhit` on a blocking mock that sits 0..2 plies below the root on the driver's board, with an increment far above the remaining time and a much larger opponent clock: the stop channel closes within the remaining time + 1.5 s slack (three attempts). Non-trivial = grid point where a clamp is active or a move time is set; distinct by (remaining, inc, movetime, colour)")
 		rec.Assume("hook uci.VerifTimeLimits (build tag verif) forwards to the unexported time control helpers")
 		shard, n := evid.Shard()
 		var rems []int64
@@ -383,7 +390,7 @@ func TestC14(t *testing.T) {
 			// large increment, a depth search): nothing of them may survive into the judged command's deadline
 			if i%2 == 1 {
 				shd, _ := evid.Shard()
-				c.Prev = [][]string{{"movetime 60000"}, {"wtime 3600000 btime 3600000 winc 30000 binc 30000", "movetime 7000"}, {"depth 3", "movetime 4000", "nodes 100"}}[(i/2+int(evid.Seed())+shd)%3]
+				c.Prev = [][]string{{"movetime 60000"}, {"wtime 3600000 btime 3600000 winc 30000 binc 30000", "movetime 7000"}, {"depth 3", "movetime 4000", "nodes 100"}, {"ponder wtime 300000 btime 300000 winc 2000 binc 2000|stop"}, {"ponder wtime 300000 btime 300000|hit", "ponder wtime 200000 btime 200000|stop"}}[(i/2+int(evid.Seed())+shd)%5]
 			}
 			var err error
 			for attempt := 0; attempt < 3; attempt++ {
